@@ -29,7 +29,7 @@ m = {
     "version": 1,
     "setup_cmd": "./check setup",
     "hooks": {"guard": "verif", "enable": "no hooks in /repo: instrumentation is applied at build time by `go test -c -overlay` (verif-instr rewrites package main's concurrency operations; harness files are overlaid as zzverif_*_test.go)",
-              "baseline_off_cmd": "cd /repo/server && GOFLAGS=-mod=mod GOPROXY=off GOSUMDB=off GOTOOLCHAIN=local go test -json -vet=off -count=1 -timeout 25m . ./db/common ./drafty ./ringhash",
+              "baseline_off_cmd": "cd /repo && GOFLAGS=-mod=mod GOPROXY=off GOSUMDB=off GOTOOLCHAIN=local go test -json -vet=off -count=1 -timeout 25m ./...",
               "source_commits": [], "add_only": True},
     "engines": R.ENGINES,
     "checks": checks,
